@@ -313,6 +313,19 @@ def g_points(ctx, rng, i):
             cols[j].append(_on_line(aa, bb, tt[j]))
     PC = [g.PointCollection(np.stack(cc).reshape(shape + (n,))) for cc in cols]
     _try(g.crossratio, *PC)
+    # the first two arguments the same single point, the others collections: cross ratio 1 at every position
+    CL = [g.PointCollection(np.stack([_on_line(a, b, PARAMS[int(j)]) for j in rng.choice(len(PARAMS), size=k)]).reshape(shape + (n,))) for _ in range(2)]
+    _try(g.crossratio, P[0], P[0], CL[0], CL[1])
+    _try(g.crossratio, P[0], g.Point(P[0].array * 2), CL[0], CL[1])
+    # integer coordinates of the order of 1000 (products of four determinants leave the int64 range)
+    if n >= 3:
+        base = np.append(gen.coords(rng, (n - 1,), 3000, "int"), 1)
+        dirn = np.append(gen.nonzero_vec(rng, n - 1, 600), 0)
+        xs = rng.choice(np.arange(-6, 7), size=4, replace=False)
+        _try(g.crossratio, *[g.Point(base + int(x) * dirn) for x in xs])
+        if n == 3:
+            o = g.Point(np.append(gen.coords(rng, (2,), 2000, "int"), 1))
+            _try(g.crossratio, *[g.Point(base + int(x) * dirn) for x in xs], o)
     # mixed validity: one position of the collection is not collinear (the error must still be raised)
     if n >= 3 and k > 1:
         bad = int(rng.integers(k))
